@@ -23,6 +23,42 @@ pub enum Plan {
     CloseVamm { vi: usize },
     /// the insurance fund owner shuts all vAMMs down
     Shutdown,
+    /// a trader operation derived from his current position on the vAMM
+    TraderOp { vi: usize, who: Who, op: TOp, block: Blk },
+    /// liquidation of the weakest position on the vAMM
+    LiqAny { vi: usize, block: Blk },
+    PayFunding { vi: usize, by: u64, block: Blk },
+    IfRm { vi: usize },
+    IfAdd { vi: usize },
+    VSet { vi: usize, open: bool },
+    Pause { p: bool },
+}
+
+#[derive(Clone, Copy, Debug, PartialEq)]
+pub enum Blk {
+    /// the usual random block advance
+    Free,
+    /// the same block as the previous transaction
+    Same,
+    /// the next block (+1 height, +6 s)
+    Next,
+}
+#[derive(Clone, Copy, Debug, PartialEq)]
+pub enum TOp {
+    OpenSame,
+    Reduce,
+    Reverse,
+    Deposit,
+    Withdraw,
+    Close,
+}
+#[derive(Clone, Copy, Debug, PartialEq)]
+pub enum Who {
+    Id(u64),
+    /// acts only while it still holds a position on the vAMM
+    Holder(u64),
+    /// the position holder on the vAMM with the lowest id that is none of the two
+    Bystander(u64, u64),
 }
 
 #[derive(Clone, Copy, Debug, PartialEq)]
@@ -40,6 +76,11 @@ pub struct GenCtx {
     /// 0 = liquidation campaign, 1 = pump / take profit / liquidate the losers
     pub scenario_kind: u64,
     pub shutdown_at: Option<u64>,
+    /// market-state campaign (1 deregistered, 2 closed, 3 paused) to start at the midpoint
+    pub market: Option<(u64, u64)>,
+    /// how many successful liquidations are still followed by the post-liquidation block script
+    pub postliq_left: u32,
+    pub pending_stats: Vec<String>,
     pub last_plan: Option<Plan>,
     pub mode: Mode,
 }
@@ -50,18 +91,51 @@ impl GenCtx {
         let scenario_at = if r.chance(p, 100) { Some(ntx / 2) } else { None };
         let scenario_kind = if r.chance(45, 100) { 1 } else { 0 };
         let shutdown_at = if r.chance(15, 100) { Some(ntx / 3) } else { None };
-        GenCtx { plan: VecDeque::new(), scenario_at, scenario_kind, shutdown_at, last_plan: None, mode }
+        let market = match r.below(100) {
+            0..=11 => Some((1, ntx / 2)),
+            12..=23 => Some((2, ntx / 2)),
+            24..=35 => Some((3, ntx / 2)),
+            _ => None,
+        };
+        let postliq_left = if r.chance(40, 100) { 1 } else { 0 };
+        GenCtx { plan: VecDeque::new(), scenario_at, scenario_kind, shutdown_at, market, postliq_left, pending_stats: vec![], last_plan: None, mode }
     }
     /// a failed preparatory step ends the campaign
-    pub fn feedback(&mut self, _tx: &Tx, res: &TxResult) {
+    pub fn feedback(&mut self, tx: &Tx, res: &TxResult) {
         if let Some(p) = self.last_plan.take() {
             if !res.ok {
                 match p {
-                    Plan::VictimOpen { .. } | Plan::Push { .. } | Plan::OpenFrac { .. } | Plan::CloseBy { .. } | Plan::CloseVamm { .. } => {
-                        self.plan.clear()
-                    }
+                    Plan::VictimOpen { .. }
+                    | Plan::Push { .. }
+                    | Plan::OpenFrac { .. }
+                    | Plan::CloseBy { .. }
+                    | Plan::CloseVamm { .. }
+                    | Plan::IfRm { .. }
+                    | Plan::VSet { open: false, .. }
+                    | Plan::Pause { p: true } => self.plan.clear(),
                     _ => {}
                 }
+            }
+        }
+        // post-liquidation block: same block first, then the next block
+        if let (Msg::Liq { v, trader, .. }, true, true) = (&tx.msg, res.ok, self.postliq_left > 0) {
+            if *v >= VAMM0 {
+                self.postliq_left -= 1;
+                let vi = (*v - VAMM0) as usize;
+                let (liq, victim) = (tx.snd, *trader);
+                let mut script: Vec<Plan> = vec![];
+                for round in 0..2 {
+                    let first = if round == 0 { Blk::Same } else { Blk::Next };
+                    script.push(Plan::PayFunding { vi, by: STRANGER, block: first });
+                    for who in [Who::Id(liq), Who::Holder(victim), Who::Bystander(liq, victim)] {
+                        script.push(Plan::TraderOp { vi, who, op: TOp::OpenSame, block: Blk::Same });
+                        script.push(Plan::TraderOp { vi, who, op: TOp::Close, block: Blk::Same });
+                    }
+                }
+                for p in script.into_iter().rev() {
+                    self.plan.push_front(p);
+                }
+                self.pending_stats.push("post_liquidation_block".to_string());
             }
         }
     }
@@ -86,7 +160,7 @@ impl VInfo {
     fn usable(&self) -> bool {
         self.open && self.registered && self.eng_ok
     }
-    fn spot(&self, d: u128) -> u128 {
+    pub fn spot(&self, d: u128) -> u128 {
         if self.b == 0 {
             0
         } else {
@@ -128,9 +202,10 @@ struct Draft {
     msg: Msg,
     min_blocks: u64,
     min_dt: u64,
+    block: Blk,
 }
 fn draft(snd: u64, msg: Msg) -> Draft {
-    Draft { snd, funds: 0, extra: false, msg, min_blocks: 0, min_dt: 0 }
+    Draft { snd, funds: 0, extra: false, msg, min_blocks: 0, min_dt: 0, block: Blk::Free }
 }
 
 fn advance(r: &mut Rng) -> (u64, u64) {
@@ -142,7 +217,7 @@ fn advance(r: &mut Rng) -> (u64, u64) {
     }
 }
 
-fn dirq(d: u64) -> vamm::Direction {
+pub fn dirq(d: u64) -> vamm::Direction {
     if d == 0 {
         vamm::Direction::AddToAmm
     } else {
@@ -150,7 +225,7 @@ fn dirq(d: u64) -> vamm::Direction {
     }
 }
 
-fn mul_div(a: u128, b: u128, c: u128) -> u128 {
+pub fn mul_div(a: u128, b: u128, c: u128) -> u128 {
     if c == 0 {
         0
     } else {
@@ -159,7 +234,7 @@ fn mul_div(a: u128, b: u128, c: u128) -> u128 {
 }
 
 /// guess of the native funds an OpenPosition needs (exact for fresh / increase / reduce)
-fn open_funds(w: &World, vi: Option<&VInfo>, pos: Option<&PosInfo>, side: u64, margin: u128, lev: u128) -> u128 {
+pub fn open_funds(w: &World, vi: Option<&VInfo>, pos: Option<&PosInfo>, side: u64, margin: u128, lev: u128) -> u128 {
     let d = w.cfg.d;
     let on = mul_div(margin, lev, d);
     let (toll, spread) = vi.map(|v| (v.toll, v.spread)).unwrap_or((0, 0));
@@ -600,7 +675,122 @@ fn realize(w: &World, r: &mut Rng, g: &mut GenCtx, plan: &Plan, vis: &[VInfo], p
             Some(draft(w.vamm_owner(&v.addr), Msg::VSetOpen { v: v.id, uopen: 0 }))
         }
         Plan::Shutdown => Some(draft(w.if_owner(), Msg::IfShutdown)),
+        Plan::TraderOp { vi, who, op, block } => {
+            let v = vis.iter().find(|x| x.idx == *vi)?;
+            let trader = match who {
+                Who::Id(t) => *t,
+                Who::Holder(t) => ps.iter().find(|p| p.v == v.id && p.t == *t)?.t,
+                Who::Bystander(a, b) => ps.iter().find(|p| p.v == v.id && p.t != *a && p.t != *b)?.t,
+            };
+            let pos = ps.iter().find(|p| p.v == v.id && p.t == trader);
+            // the liquidated trader only acts while a position remains; everybody else may act without one
+            let lev = (2 * d).min(maxlev);
+            let value = |p: &PosInfo| -> u128 {
+                w.q::<Uint128, _>(&v.addr, &vamm::QueryMsg::OutputAmount { direction: dirq(p.dir), amount: Uint128::new(p.size) })
+                    .map(|x| x.u128())
+                    .unwrap_or(p.notional)
+                    .max(1)
+            };
+            let open = |side: u64, notional: u128| -> Draft {
+                let margin = mul_div(notional, d, lev).max(1);
+                let mut dr = draft(trader, Msg::Open { v: v.id, side, margin, lev, lim: 0 });
+                if w.cfg.native {
+                    dr.funds = open_funds(w, Some(v), pos, side, margin, lev);
+                }
+                dr
+            };
+            let mut dr = match (op, pos) {
+                (TOp::OpenSame, Some(p)) => open(p.dir, (value(p) / 8).max(d)),
+                (TOp::OpenSame, None) => open(0, (v.q / 200).max(d)),
+                (TOp::Reduce, Some(p)) => open(1 - p.dir, (value(p) / 2).max(1)),
+                (TOp::Reverse, Some(p)) => open(1 - p.dir, value(p) * 3 / 2 + d),
+                (TOp::Deposit, Some(p)) => {
+                    let amt = (p.margin / 10).max(1);
+                    let mut dr = draft(trader, Msg::Deposit { v: v.id, amt });
+                    if w.cfg.native {
+                        dr.funds = amt;
+                    }
+                    dr
+                }
+                (TOp::Withdraw, Some(p)) => {
+                    let fc = w.free_collateral(&p.vaddr, &p.taddr).filter(|x| !x.negative).map(|x| x.value.u128()).unwrap_or(0);
+                    draft(trader, Msg::Withdraw { v: v.id, amt: (fc / 2).max(1) })
+                }
+                (TOp::Close, _) => draft(trader, Msg::Close { v: v.id, lim: 0 }),
+                _ => return None,
+            };
+            dr.block = *block;
+            Some(dr)
+        }
+        Plan::LiqAny { vi, block } => {
+            let v = vis.iter().find(|x| x.idx == *vi)?;
+            let on_v: Vec<PosInfo> = ps.iter().filter(|p| p.v == v.id).cloned().collect();
+            let rs = ratios(w, &on_v);
+            let target = rs.first().map(|x| x.0.t).or_else(|| on_v.first().map(|p| p.t))?;
+            let mut dr = draft(LIQUIDATOR, Msg::Liq { v: v.id, trader: target, lim: 0 });
+            dr.block = *block;
+            Some(dr)
+        }
+        Plan::PayFunding { vi, by, block } => {
+            let v = vis.iter().find(|x| x.idx == *vi)?;
+            let mut dr = draft(*by, Msg::PayFunding { v: v.id });
+            dr.block = *block;
+            Some(dr)
+        }
+        Plan::IfRm { vi } => {
+            let v = vis.iter().find(|x| x.idx == *vi)?;
+            Some(draft(w.if_owner(), Msg::IfRm { v: v.id }))
+        }
+        Plan::IfAdd { vi } => {
+            let v = vis.iter().find(|x| x.idx == *vi)?;
+            Some(draft(w.if_owner(), Msg::IfAdd { v: v.id }))
+        }
+        Plan::VSet { vi, open } => {
+            let v = vis.iter().find(|x| x.idx == *vi)?;
+            Some(draft(w.vamm_owner(&v.addr), Msg::VSetOpen { v: v.id, uopen: *open as u64 }))
+        }
+        Plan::Pause { p } => Some(draft(w.pauser(), Msg::Pause { p: *p as u64 })),
     }
+}
+
+/// Market-state campaigns on a vAMM with live positions: 1 = deregistered, 2 = closed, 3 = paused engine.
+/// The guarded state is entered, the position holders run through every kind of operation, the
+/// liquidator and a funding payer try their luck, and the state is restored.
+fn start_market(w: &World, g: &mut GenCtx, kind: u64, vis: &[VInfo], ps: &[PosInfo]) -> bool {
+    if w.engine_paused() {
+        return false;
+    }
+    let need = if kind == 3 { 1 } else { 2 };
+    let mut best: Option<(&VInfo, Vec<u64>)> = None;
+    for v in vis.iter().filter(|v| v.usable()) {
+        let mut holders: Vec<u64> = ps.iter().filter(|p| p.v == v.id).map(|p| p.t).collect();
+        holders.sort();
+        if holders.len() >= need && best.as_ref().map(|b| holders.len() > b.1.len()).unwrap_or(true) {
+            best = Some((v, holders));
+        }
+    }
+    let (v, holders) = match best {
+        Some(x) => x,
+        None => return false,
+    };
+    let vi = v.idx;
+    g.plan.push_back(match kind {
+        1 => Plan::IfRm { vi },
+        2 => Plan::VSet { vi, open: false },
+        _ => Plan::Pause { p: true },
+    });
+    let ops = [TOp::OpenSame, TOp::Reduce, TOp::Reverse, TOp::Deposit, TOp::Withdraw, TOp::Close];
+    for (i, op) in ops.iter().enumerate() {
+        g.plan.push_back(Plan::TraderOp { vi, who: Who::Id(holders[i % holders.len()]), op: *op, block: Blk::Free });
+    }
+    g.plan.push_back(Plan::LiqAny { vi, block: Blk::Free });
+    g.plan.push_back(Plan::PayFunding { vi, by: STRANGER, block: Blk::Free });
+    g.plan.push_back(match kind {
+        1 => Plan::IfAdd { vi },
+        2 => Plan::VSet { vi, open: true },
+        _ => Plan::Pause { p: false },
+    });
+    true
 }
 
 /// Pump (or dump) scenario: P opens a big low-leverage position, X and Y pile in at high leverage in the
@@ -991,17 +1181,38 @@ pub fn gen_step(w: &World, r: &mut Rng, g: &mut GenCtx, k: u64, stats: &mut Stat
     g.last_plan = None;
 
     let mut dr: Option<Draft> = None;
-    if Some(k) == g.shutdown_at && g.plan.is_empty() {
-        let started = start_shutdown(r, g, &vis);
-        stats.count("campaign", if started { "shutdown_started" } else { "shutdown_not_applicable" });
+    for name in g.pending_stats.drain(..) {
+        stats.count("campaign", &name);
     }
-    if Some(k) == g.scenario_at && g.plan.is_empty() {
-        if g.scenario_kind == 1 {
-            let started = start_pump(w, r, g, &vis, &ps);
-            stats.count("campaign", if started { "pump_started" } else { "pump_not_applicable" });
-        } else {
-            let started = start_campaign(w, r, g, &vis, &ps, None);
-            stats.count("campaign", if started { "started" } else { "not_applicable" });
+    if let Some(at) = g.shutdown_at {
+        if k >= at && g.plan.is_empty() {
+            g.shutdown_at = None;
+            let started = start_shutdown(r, g, &vis);
+            stats.count("campaign", if started { "shutdown_started" } else { "shutdown_not_applicable" });
+        }
+    }
+    if let Some((kind, at)) = g.market {
+        if k >= at && g.plan.is_empty() {
+            g.market = None;
+            let name = match kind {
+                1 => "deregistered_market",
+                2 => "closed_market",
+                _ => "paused_engine",
+            };
+            let started = start_market(w, g, kind, &vis, &ps);
+            stats.count("campaign", &format!("{}{}", name, if started { "" } else { "_not_applicable" }));
+        }
+    }
+    if let Some(at) = g.scenario_at {
+        if k >= at && g.plan.is_empty() {
+            g.scenario_at = None;
+            if g.scenario_kind == 1 {
+                let started = start_pump(w, r, g, &vis, &ps);
+                stats.count("campaign", if started { "pump_started" } else { "pump_not_applicable" });
+            } else {
+                let started = start_campaign(w, r, g, &vis, &ps, None);
+                stats.count("campaign", if started { "started" } else { "not_applicable" });
+            }
         }
     }
     while let Some(pl) = g.plan.pop_front() {
@@ -1015,6 +1226,13 @@ pub fn gen_step(w: &World, r: &mut Rng, g: &mut GenCtx, k: u64, stats: &mut Stat
                 Plan::CloseBy { .. } => "close_by",
                 Plan::CloseVamm { .. } => "close_vamm",
                 Plan::Shutdown => "shutdown",
+                Plan::TraderOp { .. } => "trader_op",
+                Plan::LiqAny { .. } => "liq_any",
+                Plan::PayFunding { .. } => "payfunding",
+                Plan::IfRm { .. } => "ifrm",
+                Plan::IfAdd { .. } => "ifadd",
+                Plan::VSet { .. } => "vset",
+                Plan::Pause { .. } => "pause",
             });
             g.last_plan = Some(pl);
             dr = Some(d);
@@ -1091,6 +1309,11 @@ pub fn gen_step(w: &World, r: &mut Rng, g: &mut GenCtx, k: u64, stats: &mut Stat
                 _ => gen_open(w, r, &vis, &ps),
             }
         }
+    };
+    let (dh, dt) = match dr.block {
+        Blk::Free => (dh, dt),
+        Blk::Same => (0, 0),
+        Blk::Next => (1, 6),
     };
     let mut height = b.height + dh.max(dr.min_blocks);
     let mut time = now + dt.max(dr.min_dt);
